@@ -51,12 +51,12 @@ type Obligation struct {
 	Pos    string
 	Func   string
 	// results
-	Status  string // discharged refuted unknown timeout error
-	Solver  string
-	TimeMs  int64
-	Output  string
-	Model   string
-	Expect  string // "unsat" (default) or "sat" for cover obligations
+	Status string // discharged refuted unknown timeout error
+	Solver string
+	TimeMs int64
+	Output string
+	Model  string
+	Expect string // "unsat" (default) or "sat" for cover obligations
 	// Detached: asserted but not assumed afterwards (preconditions of interface contracts: the interface's ensures carry
 	// the preconditions of their own tags as antecedents, so nothing else depends on the obligation)
 	Detached bool
@@ -82,60 +82,61 @@ var ghostVars = []GhostVar{
 
 type deferred struct {
 	recoverLit *ast.FuncLit // the recover idiom in the CLI: its body runs on the panicking paths, which then return normally
-	call  *ast.CallExpr
-	args  []Term
-	regPC Term
+	call       *ast.CallExpr
+	args       []Term
+	regPC      Term
 }
 
 type loopCtx struct {
-	ordinal   int
-	idx       Term // hidden index (range loops), else zero-sort Term
-	hasIdx    bool
-	breaks    []*State
-	conts     []*State
-	isSwitch  bool
-	label     string
+	ordinal  int
+	idx      Term // hidden index (range loops), else zero-sort Term
+	hasIdx   bool
+	breaks   []*State
+	conts    []*State
+	isSwitch bool
+	label    string
 }
 
 type Exec struct {
-	P      *Prog
-	U      *Universe
-	F      *FuncInfo
-	info   *types.Info
-	facts  []string
-	obls   []*Obligation
-	st     *State
-	entry  *State
-	names  map[string]*types.Var
-	boxed  map[*types.Var]bool
-	params map[string]Term // entry values of parameters / receiver by name
-	resVars []*types.Var
-	resNames []string
-	returns []*State
-	loops  []*loopCtx
-	loopOrd int
+	P            *Prog
+	U            *Universe
+	F            *FuncInfo
+	info         *types.Info
+	facts        []string
+	obls         []*Obligation
+	st           *State
+	entry        *State
+	names        map[string]*types.Var
+	boxed        map[*types.Var]bool
+	params       map[string]Term // entry values of parameters / receiver by name
+	resVars      []*types.Var
+	resNames     []string
+	returns      []*State
+	loops        []*loopCtx
+	loopOrd      int
 	loopIdxByOrd map[int]Term
-	tag    string // property being checked ("" = all)
-	safetyOn bool
-	notes  []string // abstractions used (havoc etc.)
-	notesSet map[string]bool
-	unsupported string
-	safeCount map[string]int
-	preludes []string
-	callOrd map[string]int
+	tag          string // property being checked ("" = all)
+	safetyOn     bool
+	notes        []string // abstractions used (havoc etc.)
+	notesSet     map[string]bool
+	unsupported  string
+	safeCount    map[string]int
+	preludes     []string
+	callOrd      map[string]int
 	ifaceClauses []*Clause // interface-contract ensures checked against this implementation
-	ifaceRecv string
-	deferred []*deferred
-	inDefer  bool // executing deferred calls at the function's exit
+	ifaceRecv    string
+	deferred     []*deferred
+	inDefer      bool // executing deferred calls at the function's exit
 	// identifiers of loop contracts that were renamed in the code, recovered by aligning a contract loop's header with the
 	// header of the loop it was bound to by position (for _, e := range v  ~  for _, element := range elementIds)
-	loopRename map[string]string
-	loopAlias  map[string]Term // a local of the contract that named the ranged-over collection, now written in place
-	preArgs  []Term
-	seenStack []Term
-	seenFinal Term
-	closures map[*types.Var]*closure
-	inlineStack []string
+	loopRename    map[string]string
+	guessLoop     ast.Node        // loop whose invariants are being translated: a renamed accumulator is looked for among the locals it assigns
+	loopAlias     map[string]Term // a local of the contract that named the ranged-over collection, now written in place
+	preArgs       []Term
+	seenStack     []Term
+	seenFinal     Term
+	closures      map[*types.Var]*closure
+	inlineStack   []string
 	preludeSyms   map[string]bool
 	preludeConsts map[string]*Sort
 	preludeAxioms []PreludeItem
